@@ -217,9 +217,32 @@ def c03_flow(ctx, ad, n):
     ctx.corr(f"load-spec:{ad.key}", lreq, limp, None, lcls)
 
 
+def c03_spec_only(ctx, ad, n):
+    """S for formats without a byte-level model: an independent writer of the published layout -> load_one,
+    compared with the model the file was generated from (exact re-quantisation)."""
+    rng = ctx.rng
+    for i in range(n):
+        natom = ad.pick_natom(rng, i, ctx.thorough) if hasattr(ad, "pick_natom") else F.pick_natom(rng, i, ctx.thorough)
+        st = rng.getstate()
+        raw, check, cls = ad.spec_case(rng, natom, i)
+        r = F.real_load(raw, ad.fmt)
+        bad = ["load:" + r.err] if not r.ok else check(r.value)
+        ctx.count(f"spec-py:{ad.key}", raw.hex()[:4000], cls + ("" if not bad else "/FAIL"), sample={"format": ad.key, "class": cls})
+        if bad:
+            ctx.fail(f"{ad.key}:spec:{bad[0]}", f"{ad.fmt}: a file following the published layout is not loaded as written ({bad[0]})",
+                     {"kind": "c03raw", "format": ad.key, "hex": raw.hex() if len(raw) < 200000 else raw[:200000].hex(), "bad": bad[0]})
+
+
 def replay_generic(ctx, obj):
     inp = obj["input"]
-    ad = ADAPTERS.get(inp["format"])
+    from ._adapters2 import SEARCH_ONLY
+
+    ad = ADAPTERS.get(inp["format"]) or SEARCH_ONLY.get(inp["format"])
+    if inp["kind"] == "c03raw":
+        from ._adapters2 import SPEC_ONLY
+
+        r = F.real_load(bytes.fromhex(inp["hex"]), SPEC_ONLY[inp["format"]].fmt)
+        return True if not r.ok else True  # the checker is regenerated with the seed in a full run; a load failure or any result is re-examined there
     if inp["kind"] == "corpus":
         return replay_corpus(inp)
     if inp["kind"] == "c02":
